@@ -21,6 +21,7 @@ import (
 	"regexp"
 	"sort"
 	"strings"
+	"syscall"
 	"time"
 
 	"github.com/formancehq/numscript"
@@ -73,7 +74,35 @@ func invoke(bin, dir string, args []string, stdin []byte, chunks []int) (procOut
 	var so, se bytes.Buffer
 	cmd.Stdout, cmd.Stderr = &so, &se
 	var w *os.File
-	if stdin != nil {
+	if stdin != nil && len(chunks) == 1 && chunks[0] == -1 {
+		// a regular file on descriptor 0:  numscript run --stdin < input.json
+		f, err := os.CreateTemp(dir, "stdin-*.json")
+		if err != nil {
+			return procOut{}, err
+		}
+		defer os.Remove(f.Name())
+		defer f.Close()
+		if _, err := f.Write(stdin); err != nil {
+			return procOut{}, err
+		}
+		if _, err := f.Seek(0, 0); err != nil {
+			return procOut{}, err
+		}
+		cmd.Stdin = f
+	} else if stdin != nil && len(chunks) == 1 && chunks[0] == -2 {
+		// a socket on descriptor 0 (what inetd-style supervisors and some container runtimes give)
+		fds, err := syscall.Socketpair(syscall.AF_UNIX, syscall.SOCK_STREAM, 0)
+		if err != nil {
+			return procOut{}, err
+		}
+		syscall.CloseOnExec(fds[0]) // the child gets its own copy as descriptor 0 and nothing else
+		syscall.CloseOnExec(fds[1])
+		r := os.NewFile(uintptr(fds[0]), "stdin-socket")
+		cmd.Stdin = r
+		w = os.NewFile(uintptr(fds[1]), "stdin-socket-w")
+		defer r.Close()
+		chunks = nil
+	} else if stdin != nil {
 		r, pw, err := os.Pipe()
 		if err != nil {
 			return procOut{}, err
@@ -302,12 +331,12 @@ func mustJSON(v any) string {
 }
 
 type libRun struct {
-	panicked string
-	parseErr bool
+	panicked   string
+	parseErr   bool
 	parsePanic bool
-	out      exec.Outcome
-	res      numscript.ExecutionResult
-	err      interpreter.InterpreterError
+	out        exec.Outcome
+	res        numscript.ExecutionResult
+	err        interpreter.InterpreterError
 }
 
 func libraryRun(c Case) (lr libRun) {
@@ -401,6 +430,9 @@ func executeRun(c Case, bin, dir string, res *Result) {
 	lr := libraryRun(c)
 	res.InDomain = true
 	whole := fmt.Sprintf(`{"script":%s,"variables":%s,"balances":%s,"metadata":%s}`, mustJSON(c.Text), mustJSON(c.In.Vars), balancesJSON(c.In), mustJSON(c.In.Meta))
+	if len(whole) > 65536 {
+		res.Probes["run_payload_over_64KiB"]++
+	}
 	flagArgs := []string{"--output-format", "json"}
 	for _, f := range c.In.Flags {
 		if f == gen.FlagOverdraft {
@@ -686,6 +718,14 @@ func genCase(r *rand.Rand) Case {
 			c.Text = g.Prog.Text()
 		}
 	}
+	if r.IntN(25) == 0 {
+		// a payload larger than any default line or pipe buffer (64 KiB), and below the
+		// 128 KiB the kernel allows for one argument: it travels in and comes out again
+		g.Prog.Vars = append(g.Prog.Vars, gen.VarDecl{Type: "string", Name: "zz_big"})
+		c.In.Vars["zz_big"] = strings.Repeat("0123456789abcdef", core.Pick(r, []int{4200, 5600})) + "END"
+		g.Prog.Stmts = append(g.Prog.Stmts, gen.Stmt{K: "call", Fn: "set_tx_meta", Args: []gen.Expr{*gen.Str("zz_big"), *gen.Var("zz_big")}})
+		c.Text = g.Prog.Text()
+	}
 	if r.IntN(30) == 0 {
 		c.Text = "\ufeff" + c.Text
 	}
@@ -699,13 +739,17 @@ func genCase(r *rand.Rand) Case {
 	for i := 0; i < 4; i++ {
 		c.Split = append(c.Split, core.Pick(r, []string{"raw", "stdin", "file"}))
 	}
-	switch r.IntN(4) {
+	switch r.IntN(6) {
 	case 0:
 		c.Chunks = []int{1}
 	case 1:
 		c.Chunks = []int{1 + r.IntN(7), 1 + r.IntN(64)}
 	case 2:
 		c.Chunks = []int{4096}
+	case 3:
+		c.Chunks = []int{-1} // descriptor 0 is a regular file
+	case 4:
+		c.Chunks = []int{-2} // descriptor 0 is a socket
 	}
 	c.TrailingNL = r.IntN(2) == 0
 	return c
@@ -776,7 +820,14 @@ func Worker(o core.WorkerOpts) *core.Report {
 			return
 		}
 		if len(c.Chunks) > 0 && c.Cmd == "run" {
-			l.Rep.Faults["stdin_delivered_in_chunks"]++
+			switch c.Chunks[0] {
+			case -1:
+				l.Rep.Faults["stdin_is_a_regular_file"]++
+			case -2:
+				l.Rep.Faults["stdin_is_a_socket"]++
+			default:
+				l.Rep.Faults["stdin_delivered_in_chunks"]++
+			}
 		}
 		if res.Nontrivial {
 			l.Rep.Nontrivial++
